@@ -101,6 +101,16 @@ async fn handle_spawn_event(
     let mut expression = String::new();
     reader.read_to_string(&mut expression).await?;
 
+    // An expression that does not parse cannot be honoured: refuse the spawn (.spawn.error)
+    // instead of starting a worker that can only fail
+    {
+        let mut working_set = nu_protocol::engine::StateWorkingSet::new(&engine.state);
+        nu_parser::parse(&mut working_set, None, expression.as_bytes(), false);
+        if let Some(err) = working_set.parse_errors.first() {
+            return Err(format!("Parse error: {}", err).into());
+        }
+    }
+
     let task = GeneratorTask {
         id: frame.id,
         context_id: frame.context_id,
@@ -267,38 +277,46 @@ async fn spawn(engine: nu::Engine, store: Store, task: GeneratorTask) {
     let handle = tokio::runtime::Handle::current().clone();
 
     std::thread::spawn(move || {
-        let pipeline = engine
-            .eval(input_pipeline, task.expression.clone())
-            .unwrap();
+        // One .recv per string the pipeline produces. Anything that is not a string is skipped:
+        // a worker that panics here never writes .stop, and the generator is gone for good
+        // while its name stays taken.
+        let emit = |value: Value| {
+            if let Value::String { val, .. } = value {
+                handle
+                    .block_on(async { append(store.clone(), &task, "recv", Some(val)).await })
+                    .unwrap();
+            } else {
+                tracing::error!(
+                    "generator {}: skipping non-string value of type {}",
+                    task.topic,
+                    value.get_type()
+                );
+            }
+        };
 
-        match pipeline {
-            PipelineData::Empty => {
+        match engine.eval(input_pipeline, task.expression.clone()) {
+            Ok(PipelineData::Empty) => {
                 // Close the channel immediately
             }
-            PipelineData::Value(value, _) => {
-                if let Value::String { val, .. } = value {
-                    handle
-                        .block_on(async { append(store.clone(), &task, "recv", Some(val)).await })
-                        .unwrap();
-                } else {
-                    panic!("Unexpected Value type in PipelineData::Value");
+            Ok(PipelineData::Value(Value::List { vals, .. }, _)) => {
+                for value in vals {
+                    emit(value);
                 }
             }
-            PipelineData::ListStream(mut stream, _) => {
+            Ok(PipelineData::Value(value, _)) => emit(value),
+            Ok(PipelineData::ListStream(mut stream, _)) => {
                 while let Some(value) = stream.next_value() {
-                    if let Value::String { val, .. } = value {
-                        handle
-                            .block_on(async {
-                                append(store.clone(), &task, "recv", Some(val)).await
-                            })
-                            .unwrap();
-                    } else {
-                        panic!("Unexpected Value type in ListStream");
-                    }
+                    emit(value);
                 }
             }
-            PipelineData::ByteStream(_, _) => {
-                panic!("ByteStream not supported");
+            Ok(PipelineData::ByteStream(_, _)) => {
+                tracing::error!(
+                    "generator {}: ByteStream output is not supported",
+                    task.topic
+                );
+            }
+            Err(err) => {
+                tracing::error!("generator {}: evaluation failed: {}", task.topic, err);
             }
         }
 
